@@ -189,6 +189,18 @@ func (d *driver) directed(r *cv.Rand) {
 		}
 	}
 
+	// ---- a declared length the data cannot hold, decoded at a position beyond the end of the data (the
+	// remaining length the guard compares with is negative there) ----
+	for _, k := range []int{4294967295, 16777215} {
+		d.addDec(wrap1(fix(u256, k)), r.Bytes(8), 1000, "directed:declared-beyond-end")
+		d.addDec(wrap1(fix(u256, k)), r.Bytes(40), 41, "directed:declared-beyond-end")
+		d.addDec(wrap1(fix(tup(u8, el(kBytesN, 2, 0)), k)), nil, 1, "directed:declared-beyond-end")
+		for _, off := range []int{33, 64, 1 << 31} {
+			d.addDec(wrap1(fix(strT, k)), wordInt(off), 0, "directed:declared-beyond-end")
+			d.addDec(wrap1(fix(dyn(u8), k)), cat(wordInt(off), r.Bytes(7)), 0, "directed:declared-beyond-end")
+		}
+	}
+
 	// ---- events: one indexed input of every type against every topic width; data input alongside ----
 	var evTypes []*T
 	evTypes = append(evTypes, staticElems()...)
